@@ -75,6 +75,9 @@ def _objs(G):
         "origin-point": G.Point(0, 0, 0),
         "zero": 0,
         "false": False,
+        "empty-str": "",
+        "empty-dict": {},
+        "zero-float": 0.0,
     }
 
 
@@ -84,7 +87,7 @@ SUPPORTED = {
 }
 SUPPORTED["parallel"] = SUPPORTED["orthogonal"] = SUPPORTED["angle"]
 GEO = ("P", "L", "PL", "S", "H", "G", "K")
-OPERANDS = GEO + ("V", "PYR", "int", "str", "tuple", "None", "float")
+OPERANDS = GEO + ("V", "PYR", "int", "str", "tuple", "None", "float", "zero", "false", "empty-tuple", "empty-list", "empty-str", "empty-dict", "zero-float")
 
 
 def unsupported_pairs(fn):
